@@ -70,10 +70,31 @@ class C15(Property):
             else:
                 s.add("P.1.%s" % nu.ipv4_packet(nu.node_ip(1), nu.node_ip(2, 7)), "A", "O.2")   # cached routing decision
             s.add("X.9999")                           # marker (a no-op): the silence starts here
-            for _ in range(to + 4):
+            # ... in some runs a captured handshake ping of the peer (datagram 0: node 2's ping to node 1) is replayed from its
+            # address during the silence: a handshake that never completes is not a sign of life
+            replay_at = rng.choice([None, None, 1, to // 2, to - 1])
+            for k in range(to + 4):
                 s.t += 1
-                s.add("T.%d" % s.t, "H.1", "S.1")      # only node 1 lives; nothing is delivered
+                s.add("T.%d" % s.t)
+                if replay_at is not None and k + 1 == replay_at:
+                    s.add("J.0.1.2")
+                s.add("H.1", "S.1")                    # only node 1 lives; nothing is delivered
             out.append(s.line())
+        # a peer RESTARTS on the same address with a shorter timeout and connects again before its old entry has expired: from then
+        # on the shorter timeout it now advertises governs the announcement interval - nobody may time anybody out afterwards
+        for after in ([5, 40, 85, 100, 170, 260] if thorough else [40, 85, 170]):
+            for short in ([30, 60] if thorough else [60]):
+                s = nu.Scenario()
+                s.node(1, mode="tun-router", pt=300, claims=["0a000100/24"])
+                s.node(2, mode="tun-router", pt=300, claims=["0a000200/24"])
+                s.add("C.2.1", "A")
+                s.tick(after)
+                s.node(2, mode="tun-router", pt=short, claims=["0a000200/24"])      # restart
+                s.add("X.9995", "C.2.1", "A")
+                for _ in range(400):
+                    s.t += 1
+                    s.add("T.%d" % s.t, "H.1", "S.1", "H.2", "S.2", "A")
+                out.append(s.line())
         # back-off of a configured peer that never answers, 48 h in growing steps
         for _ in range(4 if thorough else 2):
             s = nu.Scenario()
@@ -108,6 +129,8 @@ class C15(Property):
             return "ival:" + (t[0] if t[0] != "ok" else ("d1" if int(t[1]) <= 1 else "dN"))
         if " R.1.9 " in line:
             return "backoff"
+        if " X.9995 " in line:
+            return "restart"
         return "silence" if " X.9999 " in line else "mesh"
 
     def oracle(self, line, impl_out):
@@ -148,6 +171,25 @@ class C15(Property):
                         last = now
             if last is None or now - last > 3600 + 1800 + 121:
                 return "configured peer no longer re-dialled at the end of the run"
+            return None
+        if " X.9995 " in line:
+            # restart family: once both ends hold each other again after the restart, nobody drops anybody
+            k = ops.index("X.9995")
+            now, formed, have = 1, False, {1: False, 2: False}
+            for o, r in list(zip(ops, outs))[k:]:
+                if o.startswith("T."):
+                    now = int(o[2:])
+                if o in ("S.1", "S.2"):
+                    me = int(o[2:])
+                    d = nu.parse_dump(r)
+                    have[me] = any(int(p[0]) == 3 - me for p in d["peers_l"])
+                    if have[1] and have[2]:
+                        formed = True
+                    elif formed and not have[me]:
+                        return ("at t=%d node %d has timed out its healthy peer %d (which restarted with a shorter timeout and re-connected): "
+                                "announcements must come within the smallest timeout a current peer advertised") % (now, me, 3 - me)
+            if not formed:
+                return "the restarted node never got connected again"
             return None
         # the family is told by an explicit marker, not by the shape of the line: silence scenarios carry the no-op X.9999
         if " X.9999 " not in line and n >= 2:
